@@ -674,4 +674,52 @@ example : Chained [⟨[1, 2, 3, 4], [1, 2, 3], false, false⟩, ⟨[1, 2], [1], 
 
 end examples
 
+/-! ### The SOCKS5 UDP association outlives datagrams it cannot relay -/
+
+open Penguin.UdpMap
+
+/-- The requests among the datagrams a relay socket receives. -/
+def requestsOf : List RelayIn → List RelayOut
+  | [] => []
+  | .request d p x :: rest => .forwarded d p x :: requestsOf rest
+  | _ :: rest => requestsOf rest
+
+/-- What the relay forwarded. -/
+def forwardedOf : List RelayOut → List RelayOut
+  | [] => []
+  | .forwarded d p x :: rest => .forwarded d p x :: forwardedOf rest
+  | _ :: rest => forwardedOf rest
+
+/-- Whatever arrives on the relay socket of a SOCKS5 UDP association — fragments, truncated or
+    otherwise malformed datagrams, from the association's own client or from anybody else, in any
+    number and order — every well-formed request among it is forwarded, unchanged and in order
+    (RFC 1928 section 7: a relay silently drops what it cannot relay); no datagram ends the
+    association.  With the source as it was before fix 0a183e4 (`Err(e) => Err(…)`) the regenerated
+    `socksRelayDropsMalformed` is `false` and this fails: one junk datagram silenced every later
+    request of the association. -/
+theorem association_survives_junk_datagrams (ins : List RelayIn) :
+    forwardedOf (relayRun true ins) = requestsOf ins ∧ RelayOut.ended ∉ relayRun true ins := by
+  induction ins with
+  | nil => simp [relayRun, forwardedOf, requestsOf]
+  | cons i rest ih =>
+    cases i with
+    | request d p x =>
+      simp only [relayRun, relayStep, Bool.not_true, Bool.false_eq_true, if_false, forwardedOf, requestsOf,
+        List.mem_cons, reduceCtorEq, false_or]
+      exact ⟨by rw [ih.1], ih.2⟩
+    | fragmented =>
+      have hc : socksRelayDropsFragmented = true := rfl
+      simp only [relayRun, relayStep, Bool.not_true, Bool.false_eq_true, if_false, hc, if_true, forwardedOf,
+        requestsOf, List.mem_cons, reduceCtorEq, false_or]
+      exact ih
+    | malformed =>
+      have hc : socksRelayDropsMalformed = true := rfl
+      simp only [relayRun, relayStep, Bool.not_true, Bool.false_eq_true, if_false, hc, if_true, forwardedOf,
+        requestsOf, List.mem_cons, reduceCtorEq, false_or]
+      exact ih
+
+example : forwardedOf (relayRun true [.malformed, .request [1] 53 [9], .fragmented, .request [2] 54 []]) =
+    [.forwarded [1] 53 [9], .forwarded [2] 54 []] := by decide
+
+
 end Penguin.C01
